@@ -62,6 +62,12 @@ func (e ExitReason) GetHostCallID() uint8 {
 	return uint8(e)
 }
 
+// GetHostCallIndex returns the full ecalli immediate nu_X. The immediate is the sign extension of at most four
+// octets, so its low 32 bits (the payload kept in the exit reason) determine it.
+func (e ExitReason) GetHostCallIndex() uint64 {
+	return uint64(int64(int32(uint32(e))))
+}
+
 func (e ExitReason) GetPageFaultAddress() uint32 {
 	return uint32(e)
 }
